@@ -208,6 +208,11 @@ def pubrel_gate(F, R, d):
              'a PUBREL for an id that is not in flight reaches the control service', b.loc(bad[0]) if bad else None)
         R.ob('C11.pubrel-gate', '%s|PublishRelease|known-id|control' % d.name, any(c in known for c, _ in hs),
              'a PUBREL for a known id is not forwarded to the control service', b.loc(bi))
+        # the arm itself completes the exchange (PUBCOMP) only for an unknown id; for a known one the completion comes from the
+        # control path, which is the only place that releases the id
+        own = [x for x, j, s_ in agg_sites(b, r'^%s$' % re.escape(d.packet), 'PublishComplete') if x in known]
+        R.ob('C11.pubrel-gate', '%s|PublishRelease|known-id|completed-only-through-control' % d.name, not own,
+             'the PUBREL arm builds the PUBCOMP for an id that is in flight by itself: the exchange is completed for the peer but the id is never released (a later PUBLISH with that id is refused as in use)', b.loc(own[0]) if own else b.loc(bi))
         # refusal shape
         if d.name == 'v3-server':
             ok = any(bi2 in unknown for bi2, t2 in b.calls_to(r'error::ProtocolError::unexpected_packet$'))
